@@ -190,7 +190,10 @@ class World:
         m = self._new_master()
         m.load_model()
         self.loaded = self.project(m)
+        self.loaded_sched = project_sched(self, m)
+        self.placement = None
         m.init_schedule()
+        self.init_queues, self.init_placement = self.queues, self.placement
         m.check_placement_integrity()
         for path in WATCHED:
             m.process_complete[path] = threading.Event()
@@ -519,6 +522,14 @@ def replay(scn, history):
             if ev in ('Restart', 'CrashRestart'):
                 line['loaded'] = w.loaded if 'exc' not in line else dict(alive=False, servers={}, apps={}, groups={})
                 line['prestore'] = pre_store
+                if 'exc' not in line and w.master is not None and w.init_placement is not None:
+                    # the start-up cycle: pre = the model as loaded, post = after init_schedule
+                    line['loaded_sched'] = w.loaded_sched
+                    line['declared'] = w.declared()
+                    line['oprio'] = w.oprio()
+                    line['queues'] = w.init_queues
+                    line['placement'] = [[w.aname(n), b or '', rels(eb), a or '', rels(ea)]
+                                         for n, b, eb, a, ea in w.init_placement]
             if ev in ('CrashCycle', 'CrashRestart'):
                 line['crashed'] = bool(getattr(w, 'crashed', False))
             lines.append(line)
@@ -539,6 +550,15 @@ def sched_segments(tid, lines):
             if len(cur) > 1:
                 segs.append(cur)
             cur = []
+            continue
+        if 'loaded_sched' in l and l['loaded_sched'] is not None:
+            # a (re)started master: new segment = [model as loaded] + [start-up cycle]
+            if len(cur) > 1:
+                segs.append(cur)
+            cur = [dict(ev='Init', args=[], h=k, post=l['loaded_sched']),
+                   dict(ev='Cycle', args=[], h=k, post=l['post'], spells=l.get('spells', {}),
+                        queues=l['queues'], placement=l['placement'],
+                        declared=l.get('declared', {}), oprio=l.get('oprio', {}))]
             continue
         if not cur:
             cur.append(dict(ev='Init', args=[], h=k, post=l['post']))
